@@ -9,10 +9,10 @@ LEVEL_TEXT = ("Per-width deductive proof on the real StridedInterval class with 
               "proved and not claimed to fail; they are listed in the evidence assumptions.")
 TECHNIQUE = "contract-based deductive verification (pyvc symbolic execution of the real class, VCs by z3)"
 M = "vf.contracts.si"
-JOINS = ["union", "pseudo_join", "least_upper_bound", "widen"]
+JOINS = ["union", "pseudo_join", "least_upper_bound", "widen"]      # + least_upper_bound with three operands (registered below)
 MEETS = ["intersection", "_multi_valued_intersection"]
 QUERIES = ["eval1", "eval2", "eval4", "min", "max", "cardinality", "solution"]
-FUNCTIONS = [f"StridedInterval.{n}" for n in JOINS + MEETS + ["eval", "min", "max", "cardinality", "solution", "complement"]]
+FUNCTIONS = [f"StridedInterval.{n}" for n in JOINS + ["least_upper_bound (three operands: the rotation loop)"] + MEETS + ["eval", "min", "max", "cardinality", "solution", "complement"]]
 TRUSTED = ["z3 4.13", "CPython 3.12", "contract of math.gcd/lcm", "contract of _minimal_common_integer_splitted (rational Diophantine solver; checked bounded: exhaustively up to width 4, directed random at 16..64 bits)"]
 ASSUMPTIONS = ["widths 1-4 (quick 1-3); each width complete in values", "non-reversed, initialised, non-empty operands"]
 R = "vf.contracts.si:replay_c22"
@@ -38,12 +38,18 @@ def _tasks(tier, seed=0):
         for op in JOINS:
             out.append(task(M, "ob_join", f"si.{op}/gamma@w{w}", ["C22"], replay=R, op=op, w=w, tier=tier))
         out.append(task(M, "ob_join", f"si.pseudo_join[plain]/gamma@w{w}", ["C22"], replay=R, op="pseudo_join", w=w, tier=tier, smart=False))
+        out.append(task(M, "ob_join", f"si.least_upper_bound3/gamma@w{w}", ["C22", "C21"], replay=R, op="least_upper_bound3", w=w, tier=tier))
         for op in MEETS:
             out.append(task(M, "ob_meet", f"si.{op}/gamma@w{w}", ["C22"], replay=R, op=op, w=w, tier=tier))
         for q in QUERIES:
             out.append(task(M, "ob_query", f"si.{q}/exact@w{w}", ["C22"], replay=R, q=q, w=w, tier=tier))
     from vf.props import C21 as _C21
     out += _C21.pairs_tasks(tier, "C22", ["union", "widen", "intersection", "eval", "min", "max", "cardinality", "solution"])
+    # least_upper_bound at the arity where it runs its own loop: every triple at widths 1-3 (4 at the thorough tier: first 40 s per shard)
+    for w, nsh in ((1, 1), (2, 1), (3, 4)) + (((4, 16),) if tier != "quick" else ()):
+        for sh in range(nsh):
+            out.append(task("vf.bounded.si_pairs", "run_lub3", f"si.least_upper_bound3/exhaustive-triples@w{w}" + (f"#{sh}" if nsh > 1 else ""), ["C22", "C21"], kind="bounded",
+                            replay="vf.bounded.si_pairs:replay_lub3", w=w, shard=sh, nshards=nsh, budget_s=150 if tier == "quick" else 600))
     # the assumed contract of the Diophantine helper, bounded: exhaustively at small widths (also run by C21) and directed-random at 16..64 bits
     out.append(task("vf.bounded.si_enum", "mci", "si._minimal_common_integer_splitted/contract-bounded", ["C21", "C22"], kind="bounded",
                     replay="vf.bounded.si_enum:replay_mci", wmax=4 if tier == "quick" else 5, budget_s=100 if tier == "quick" else 1500))
